@@ -35,7 +35,7 @@ def bounds(tier):
 def required_cells(tier):
     return ["excluded-file-defines-macro-others-test", "excluded-compiled-file", "excluded-header", "out-of-root-header",
             "out-of-root-header-defines-macro", "pattern:path", "pattern:dir", "pattern:ext", "pattern:anchored-dir", "all-files-excluded",
-            "cli:-x-vs-toml", "cli:tree", "cli:cov"]
+            "cli:-x-vs-toml", "cli:-x-plus-toml", "cli:tree", "cli:cov"]
 
 
 def attribution(state, case, base):
@@ -136,7 +136,7 @@ def check_case(ctx, git, case, base, cls, do_cli=False):
         matched = [r for r in inroot if ign.get(r, False)]
         if not members:
             cells.add("all-files-excluded")
-        if any(r.endswith(".c") for r in matched):
+        if any(not r.endswith(".h") for r in matched):
             cells.add("excluded-compiled-file")
         if any(r.endswith(".h") for r in matched):
             cells.add("excluded-header")
@@ -190,7 +190,7 @@ def cli_check(ctx, git, case, base, rng, inroot, attr0):
     root, _ = forest.paths(base)
     realroot = os.path.realpath(root)
     toml = c08.write_dbs(case, base)
-    sub = rng.sample(inroot, max(1, len(inroot) // 3))
+    sub = rng.sample(inroot, max(2, len(inroot) // 3))
     pats = ["/" + x for x in sub]
     ign = git.ignored(realroot, pats, inroot)
     members = [r for r in inroot if not ign.get(r, False)]
@@ -207,6 +207,16 @@ def cli_check(ctx, git, case, base, rng, inroot, attr0):
     rc2, out2, err2 = cli.run("codebasin", ["-R", "summary", "analysis_x.toml"], root)
     s1, s2 = cli.parse_summary(out1), cli.parse_summary(out2)
     cells.add("cli:-x-vs-toml")
+    # half of the patterns on the command line, the other half in the analysis file
+    half = max(1, len(pats) // 2)
+    with open(os.path.join(root, "analysis_h.toml"), "w") as f:
+        f.write("[codebase]\nexclude = [%s]\n\n" % ", ".join(json.dumps(p) for p in pats[half:]) + body)
+    rc5, out5, err5 = cli.run("codebasin", ["-R", "summary"] + [y for p in pats[:half] for y in ("-x", p)] + ["analysis_h.toml"], root)
+    s5 = cli.parse_summary(out5)
+    cells.add("cli:-x-plus-toml")
+    if rc5 != 0 or s5["rows"] != s1["rows"] or s5["metrics"] != s1["metrics"]:
+        problems.append({"kind": "patterns split between -x and [codebase] exclude differ from all on the command line",
+                         "split": str(s5)[:300], "all-x": str(s1)[:300], "stderr": err5[-200:]})
     if rc1 != 0 or rc2 != 0 or s1["rows"] != s2["rows"] or s1["metrics"] != s2["metrics"]:
         problems.append({"kind": "cli -x differs from [codebase] exclude", "rc": [rc1, rc2], "x": str(s1)[:400], "toml": str(s2)[:400],
                          "stderr": (err1 + err2)[-300:]})
